@@ -44,6 +44,8 @@ type poolHarness struct {
 	all      []*poolReq
 	mismatch int64 // same() saw two different ids inside one execution
 	reaped   []*poolReq // requests that finished on their own, not yet checked
+	// extraData, if set, adds further entries to the data map of a request
+	extraData func(id, kind int64) map[string]interface{}
 }
 
 // parkedCount is the number of outstanding requests with at least one rule parked.
@@ -83,6 +85,11 @@ func (h *poolHarness) start(id int64, kind int64, keys []string, call gx.Call) *
 		p := &Payload{Id: id, Kind: kind, M: map[string]int64{}, Sl: []int64{0, 0}}
 		r.payloads[k] = p
 		data[k] = p
+	}
+	if h.extraData != nil {
+		for k, v := range h.extraData(id, kind) {
+			data[k] = v
+		}
 	}
 	h.gates.Set(fmt.Sprint(id), obs.Hold, 0)
 	h.out = append(h.out, r)
